@@ -129,6 +129,26 @@ fn classes() -> Vec<Class> {
             blocking: |c| c.noop().map(|v| rec(&v)),
             asynch: |c| block_on(c.noop()).map(|v| rec(&v)),
         },
+        // enum names are [A-Z0-9_]+ : a name outside that set is not a value of any enum, listed or not
+        Class {
+            name: "list<enum> (enumList)",
+            empty: Some("[]"),
+            bodies: vec![
+                ("[\"RED\",\"GREEN\"]", Some("[\"RED\",\"GREEN\"]")),
+                ("[\"PURPLE_9\"]", Some("[\"PURPLE_9\"]")),
+                ("[\"\u{c9}T\u{c9}\"]", None),
+                ("[\"RED\",\"\u{3a9}\"]", None),
+                ("[\"ONE_\u{c4}\"]", None),
+                ("[\"red\"]", None),
+                ("[\"RED \"]", None),
+                ("[\"\"]", None),
+                ("[\"R-D\"]", None),
+                ("\"RED\"", None),
+                ("[\"RED\"", None),
+            ],
+            blocking: |c| c.enum_list().map(|v| rec(&v)),
+            asynch: |c| block_on(c.enum_list()).map(|v| rec(&v)),
+        },
         Class {
             name: "union (bodyUnion)",
             empty: None,
